@@ -37,17 +37,20 @@ def proj_records(records, tag):
 def features(row):
     """what the PROJ definition contains, read off its canonical text (for a stable signature)"""
     t = row.get("canon_proj") or row.get("proj") or ""
-    hdr = t.split(" step ")[0] if t.startswith("proj=pipeline") else ""
+    pipe = t.startswith("proj=pipeline")
+    hdr = t.split(" step ")[0] if pipe else ""
     f = []
-    if " inv" in (" " + hdr + " ") and hdr:
+    if pipe and " inv " in (hdr + " "):
         f.append("pipeline-inv")
     if "omit_" in t:
         f.append("omit")
-    if re.search(r"(^| )a=", hdr) and " rf=" in hdr:
+    if pipe and t.count(" step ") == 1:
+        f.append("one-step-pipeline")
+    if re.search(r" a=", hdr) and " rf=" in hdr:
         f.append("global-a-rf")
-    if re.search(r"(^| )k=", hdr):
+    elif re.search(r" k=", hdr):
         f.append("global-k")
-    if hdr and len(hdr.split()) > (2 if " inv" in hdr else 1):
+    elif pipe and len(hdr.split()) > (2 if " inv " in (hdr + " ") else 1):
         f.append("globals")
     if row.get("why"):
         f.append(row["why"])
@@ -55,17 +58,17 @@ def features(row):
 
 
 def proj_key(row):
+    """(symptom, layout choices + features of the definition): the minimal sets are reported"""
     what = row["fails"][0]["what"]
     if what.startswith("op_") and "_vs_" in what:
         what = "op_outcome"
-    return what + ":" + "+".join(features(row)), frozenset(c for c in (row.get("choices") or []) if c)
+    return what, frozenset([c for c in (row.get("choices") or []) if c] + ["has:" + f for f in features(row)])
 
 
 def signature(sig):
-    cls, _, ch = sig.partition("|")
-    dims = sorted({c.split("=")[0] for c in ch.split(",") if c})
-    # the comment text only matters through its position
-    return "proj|%s|%s" % (cls, "+".join(dims))
+    what, _, ch = sig.partition("|")
+    items = sorted({c[4:] if c.startswith("has:") else "layout:" + c.split("=")[0] for c in ch.split(",") if c})
+    return "proj|%s|%s" % (what, "+".join(items))
 
 
 def run(tier, seed):
@@ -113,7 +116,7 @@ def run(tier, seed):
                 "translation: inverted pipeline = exact inverse (plans and results), locals win, order kept, omissions keep "
                 "their meaning. A second family uses the operators both systems share (cart, helmert, utm, tmerc, merc, lcc, "
                 "laea, axisswap, unitconvert, noop; a+rf, k, global ellps) and refusals (init=, nested pipeline); these cases "
-                "are rendered in every layout with <=2 (quick) / <=3 (thorough) non-default choices over 9 dimensions ('+' "
+                "are rendered in every layout with <=2 (quick) / <=3 (thorough) non-default choices over 8 dimensions ('+' "
                 "prefixes, blanks around '=', line per step, LF/CR/CRLF, comments, position of proj= and modifiers in a "
                 "step, order of the pipeline header, surrounding blanks). Each text is instantiated in a Plain context and "
                 "compared with the reference Geodesy text: outcome, steps, step parameters, results in both directions bit "
@@ -124,6 +127,7 @@ def run(tier, seed):
         "PROJ text without a proj=pipeline header is a single operation (several steps without header are not PROJ and are not generated)",
         "ellps given together with a/rf (in the same step or through the globals) is not generated: the documentation of parse_proj leaves it to fail later",
         "a and rf reaching a step through the pipeline globals mean the same as given in the step (PROJ appends the globals to every step); likewise k",
+        "comments whose text contains '|' are not generated (parse_proj documents that such a text 'does not look like a PROJ string' and passes it on unchanged)",
         "which error is returned for init= / nested pipelines is not compared, only that op() and parse_proj() return an error",
     ]
     return res.finish()
